@@ -21,11 +21,20 @@ LEVEL_TEXT = ("Proof: ms -> datetime is exactly 1000*ms microseconds for every |
               "format/parse round trip of all four string shapes and of the reader formats; decimal year: exact-arithmetic "
               "strict monotonicity (>= dt/366 days), proved forward error bound 1e-12 yr of the ten float operations, hence "
               "strict increase of the binary64 result for instants >= 1 ms apart and inverse within 1 ms. "
+              "Wave 4: the os.name == 'nt' branch of epoch_time_to_utc_datetime is modelled and characterised exactly (a negative "
+              "epoch is converted correctly iff it is not a multiple of 10 ms or is a whole second; naive result; proposed repair "
+              "proved exact); on the full range of datetime (0001..9999) ms -> datetime is within 15 us, strictly monotone, the "
+              "round trip gives ms or ms-1, and the bound 2^33*1000 of the exact theorems is proved sharp; string / field theorems "
+              "for every four-digit year; explicit format arguments; millis_to_days / days_to_millis / timedelta_from_years / "
+              "time_horizon_years / length_in_seconds in Soft64 (monotone, exact on whole days / years). "
               "Tied to the code by a bit-exact correspondence on uniform and boundary-window milliseconds, all microsecond "
               "phases, strings and decimal years.")
 LEVEL_NOTE = ("CPython's datetime (fromtimestamp = modf, *1e6, round-half-even; timedelta normalisation; strptime/str) and "
               "binary64 arithmetic are modelled by hand and validated bit-for-bit on every run; strptime is modelled for the "
-              "canonical field widths that str(datetime) writes; the Windows branch of epoch_time_to_utc_datetime is not modelled.")
+              "canonical field widths that str(datetime) writes; the Windows branch of epoch_time_to_utc_datetime is modelled from the "
+              "Python text (str(float) of ms/1000 = the three decimals without trailing zeros: trusted, compared on every run) and "
+              "run with the module's `os` replaced by a stand-in named 'nt', not on a Windows build. Decimal-year theorems keep the "
+              "range 1697..2242.")
 DESIGN_REF = "DESIGN.md §4 C15"
 TECHNIQUE = "Lean 4 proof (Soft64 error analysis + integer arithmetic + omega/decide) with differential correspondence"
 
@@ -33,13 +42,26 @@ THEOREMS = ["Time.ms_to_dt_exact", "Time.dt_to_ms_floor", "Time.ms_roundtrip", "
             "Time.within_one_ms", "Time.to_datetime_strict_mono", "Time.dt_to_ms_mono", "Time.tz_rule",
             "Time.civil_roundtrip", "Time.fields_roundtrip", "Time.fields_valid", "Time.string_parse_agrees",
             "Time.string_fraction_iff", "Time.reader_parse_agrees", "Time.decimal_year_exact_strict_mono",
-            "Time.decimal_year_err", "Time.decimal_year_strict_mono", "Time.decimal_year_inverse_within_1ms"]
+            "Time.decimal_year_err", "Time.decimal_year_strict_mono", "Time.decimal_year_inverse_within_1ms",
+            # wave 4 (Properties/C15_Ext.lean)
+            "Time.nt_nonneg_agrees", "Time.nt_negative_value", "Time.nt_exact_iff", "Time.nt_roundtrip_iff",
+            "Time.nt_aware_iff", "Time.nt_finding_roundtrip_fails", "Time.nt_finding_not_monotone",
+            "Time.nt_finding_share", "Time.nt_patched_exact",
+            "Time.ms_to_dt_close_full", "Time.to_datetime_strict_mono_full", "Time.ms_roundtrip_full",
+            "Time.ms_roundtrip_bound_sharp", "Time.full_range_ok", "Time.fields_valid_full",
+            "Time.string_parse_agrees_full", "Time.explicit_format_agrees", "Time.explicit_format_frac_mismatch",
+            "Time.millisToDays_mono", "Time.daysToMillisF_mono", "Time.days_millis_whole",
+            "Time.timeHorizonYears_mono", "Time.timeHorizonYears_nonneg", "Time.lengthInSeconds_eq",
+            "Time.timedeltaFromYears_neg", "Time.timedeltaFromYears_whole",
+            "Time.create_utc_never_returns", "Time.create_utc_fixed_spec"]
 TRUSTED = ["Lean 4.33 kernel", "axioms: propext, Classical.choice, Quot.sound at most",
            "Soft64.fl64 is IEEE-754 binary64 round-to-nearest-even and CPython float * and / are that arithmetic "
            "(validated bit-for-bit on every generated operand)",
            "CPython datetime: fromtimestamp(float) = modf, frac*1e6, round-half-even, carry; timedelta normalisation; "
            "str()/strptime for canonical field widths; timedelta(microseconds=float) rounds half-even "
            "(hand transcription, validated by the correspondence)",
+           "float.__repr__ of ms/1000 (|ms| < 2^42*1000) prints the decimal ms/1000 without trailing zeros (shortest round-trip "
+           "string); CPython timedelta(seconds=float) = modf, frac*1e6, round-half-even (validated by the correspondence)",
            "harness/c15.py generators, oracle and comparison; driver parsing (Proto.lean)"]
 RULE = ("uniform integer milliseconds in 1900-01-01..2200-01-01; complete +-2000 ms windows around second, day and year "
         "boundaries of chosen years and around the epoch sign change; every microsecond phase 0..999 of sampled datetimes; "
@@ -49,7 +71,13 @@ RULE = ("uniform integer milliseconds in 1900-01-01..2200-01-01; complete +-2000
         "(CatalogForecast.start_epoch/end_epoch, GriddedForecast.scale_to_test_date, catalog start_time/end_time/"
         "get_datetimes after update_catalog_stats) in sequences assign - read - re-assign - read again; and a sample of "
         "every case class re-run under non-UTC LOCAL time zones (TZ + time.tzset(): Asia/Tokyo, America/Los_Angeles; "
-        "three more in thorough), the zone being part of the case.")
+        "three more in thorough), the zone being part of the case. Wave 4: the same conversions with os.name == 'nt' (uniform, "
+        "mostly negative epochs, complete windows around negative second boundaries, through the function and through a "
+        "catalog); milliseconds, datetimes and strings of the full datetime range 0001..9999 outside 1900..2200 (bit-exact "
+        "correspondence; the weaker proved statements as oracle; outside the property's quantifier); explicit format arguments "
+        "(16 string-shape x format-shape combinations, three separators); days <-> milliseconds, timedelta_from_years, "
+        "create_utc_datetime, None pass-through, utc_now_*; time_horizon_years and length_in_seconds bit exact. Sub-classes on "
+        "which unchanged pyCSEP departs from the property are named in AWAITING_DECISION.")
 
 # sub-classes on which the UNCHANGED library deviates and a decision is pending (generator leaves the assertion out,
 # the observation is counted): see notes/C15.md "Observed on unchanged /repo"
@@ -57,7 +85,24 @@ AWAITING_DECISION = [
     # CatalogForecast.time_horizon_years is computed once in the constructor from start_epoch/end_epoch and is a plain
     # attribute: after start_time / end_time are re-assigned it still describes the old window
     "catalog-forecast:time_horizon_years-after-reassignment",
+    # wave 4: the `os.name == "nt" and epoch_time < 0` branch of epoch_time_to_utc_datetime (exercised here with the
+    # module's `os` replaced by a stand-in whose name is "nt"): `int(frac) * -1` reads the digits after the decimal point
+    # of str(ms / 1000) as milliseconds WITHOUT padding them to three places, so every negative epoch that is a multiple
+    # of 10 ms but not a whole second is converted to a wrong instant (-1500 -> 1969-12-31 23:59:58.995); and the branch
+    # returns a NAIVE datetime. Proved of the faithful model: Time.nt_exact_iff, Time.nt_finding_*, Time.nt_aware_iff.
+    "nt-branch:negative-epoch-multiple-of-10ms-wrong-instant",
+    "nt-branch:negative-epoch-naive-result",
+    # wave 4: create_utc_datetime(datetime) shadows the module `datetime` with its parameter; `datetime.timezone.utc` is
+    # then looked up on the argument: AttributeError for EVERY naive datetime (Time.create_utc_never_returns)
+    "create_utc_datetime:naive-argument-raises-AttributeError",
 ]
+# input classes outside the property's quantifier (1900-01-01..2200-01-01) that are nevertheless run for the
+# correspondence with the model (and for the weaker statements PROVED of the model on the full range of datetime):
+# beyond |ms| = 2^33*1000 (1697-10-20 .. 2242-03-16) the round trip ms -> datetime -> ms loses a millisecond for ~40 % of
+# the values (Time.ms_roundtrip_bound_sharp: 8589934592001 -> 8589934592000); counted as an observation, never reported
+OUTSIDE_QUANTIFIER = ["far-range:years-0001..1899-and-2201..9999"]
+MS_MIN = -62135596800000      # 0001-01-01
+MS_MAX = 253402300799999      # 9999-12-31T23:59:59.999
 
 # the LOCAL time zone the current cases run under (None = the process default); part of every case for the replay
 _TZ = None
@@ -131,11 +176,19 @@ class Ctx:
     def ask(self, line, expected, info):
         self.pending.append((self.drv.ask(line), expected, info))
 
+    def ask_either(self, line, line2, expected, info):
+        """entry by entry the implementation must agree with the answer to `line` or with the answer to `line2`"""
+        self.pending.append((self.drv.ask(line), expected, dict(info, _alt=self.drv.ask(line2))))
+
     def flush(self):
         out = self.drv.run()
         bit, tot = self.bit, self.tot
         for i, expected, info in self.pending:
             got = out[i]
+            alt = None
+            if "_alt" in info:
+                alt = out[info["_alt"]].split(",")
+                info = {kk: v for kk, v in info.items() if kk != "_alt"}
             if isinstance(expected, list):
                 g = got.split(",") if got != "-" else []
                 tot += len(expected)
@@ -144,6 +197,19 @@ class Ctx:
                     continue
                 for k, (a, b) in enumerate(zip(expected, g)):
                     same = (a == b) or ("/" in a + b and Fraction(a) == Fraction(b))
+                    if not same and info.get("tol"):
+                        # float-valued helper conversions: a re-association of the same formula differs in the last bits
+                        # and is not a change of behaviour; (relative, absolute) tolerance, counted
+                        try:
+                            fa, fb = Fraction(a), Fraction(b)
+                            if abs(fa - fb) <= info["tol"][0] * abs(fb) + info["tol"][1]:
+                                same = True
+                                self.run.count("within-rounding-not-bit-exact")
+                        except (ValueError, ZeroDivisionError):
+                            pass
+                    if not same and alt is not None and k < len(alt) and a == alt[k]:
+                        same = True
+                        self.run.count("agrees-with-repaired-model-only")
                     if same:
                         bit += 1
                     else:
@@ -310,8 +376,9 @@ def check_strings(ctx, us, tag):
     shapes = [("naive", str(naive)), ("aware", str(aware))]
     # the fraction-less / fractional shape that str() would not give for this value is produced by strftime
     if us % 1000000 == 0:
-        shapes.append(("naive-frac0", naive.strftime("%Y-%m-%d %H:%M:%S.%f")))
-        shapes.append(("aware-frac0", naive.strftime("%Y-%m-%d %H:%M:%S.%f") + "+00:00"))
+        # (str() never pads with a fraction; written by hand, strftime('%Y') does not zero-pad years below 1000)
+        shapes.append(("naive-frac0", str(naive) + ".000000"))
+        shapes.append(("aware-frac0", str(naive) + ".000000+00:00"))
     for name, s in shapes:
         c = dict(case, shape=name, string=s)
         try:
@@ -639,6 +706,382 @@ def gen_object_times(rng, obj):
     return steps, ctor
 
 
+
+# ------------------------------------------------------------------------------------------------ wave 4
+class nt_os:
+    """run a block with time_utils seeing `os.name == "nt"`: the module's global `os` is replaced by a stand-in (the
+    real `os` module is untouched), always restored. On a real Windows build the branch runs the same Python code:
+    str(float), int(), timedelta arithmetic are platform independent."""
+    def __enter__(self):
+        import types
+        from csep.utils import time_utils as tu
+        self.tu, self.old = tu, tu.__dict__.get("os")
+        tu.os = types.SimpleNamespace(name="nt")
+        return self
+
+    def __exit__(self, *exc):
+        if self.old is None:
+            self.tu.__dict__.pop("os", None)
+        else:
+            self.tu.os = self.old
+        return False
+
+
+A_NT_WRONG = "nt-branch:negative-epoch-multiple-of-10ms-wrong-instant"
+A_NT_NAIVE = "nt-branch:negative-epoch-naive-result"
+A_CREATE_UTC = "create_utc_datetime:naive-argument-raises-AttributeError"
+
+
+def check_ms_values_nt(ctx, ms_list, tag, via="func", sorted_window=False):
+    """ms -> datetime -> ms when the library believes it runs on Windows (os.name == "nt")."""
+    from csep.utils import time_utils as tu
+    run = ctx.run
+    with nt_os():
+        try:
+            if via == "catalog":
+                from csep.core.catalogs import CSEPCatalog
+                cat = CSEPCatalog(data=[(str(i), m, 0.0, 0.0, 0.0, 1.0) for i, m in enumerate(ms_list)])
+                dts = list(cat.get_datetimes())
+            else:
+                dts = [tu.epoch_time_to_utc_datetime(m) for m in ms_list]
+        except Exception as e:
+            run.oracle_failure(_case(kind="nt", ms=ms_list[0], tag=tag, via=via, all=ms_list[:50]),
+                               f"os.name='nt': ms->dt raised {type(e).__name__}: {e}")
+            return
+    exp, prev = [], None
+    for m, dt in zip(ms_list, dts):
+        case = _case(kind="nt", ms=m, tag=tag)
+        run.case(case, ("nt", m) if m % 1000 else None)
+        aware = dt.tzinfo is not None
+        if aware and dt.utcoffset() != _dt.timedelta(0):
+            run.oracle_failure(case, "os.name='nt': result has a non-UTC offset")
+        u = us_of(dt)
+        exp.append(f"{u}:{'a' if aware else 'n'}")
+        waits_wrong = m < 0 and m % 10 == 0 and m % 1000 != 0
+        if not aware:
+            if m < 0 and A_NT_NAIVE in AWAITING_DECISION:
+                run.count("awaiting-decision:nt-naive-result")
+            else:
+                run.oracle_failure(case, f"os.name='nt': ms->dt: result {dt!r} is not UTC-aware")
+        try:
+            back = tu.datetime_to_utc_epoch(dt)
+        except Exception as e:
+            run.oracle_failure(case, f"os.name='nt': dt->ms raised {type(e).__name__}: {e}")
+            continue
+        ok = back == m and u == 1000 * m
+        if not ok:
+            if waits_wrong and A_NT_WRONG in AWAITING_DECISION:
+                run.count("awaiting-decision:nt-wrong-instant")
+            else:
+                run.oracle_failure(case, f"os.name='nt': round trip ms->dt->ms: {m} -> {dt.isoformat()} -> {back}")
+        if sorted_window and prev is not None and not (prev[1] < u):
+            if A_NT_WRONG in AWAITING_DECISION and (waits_wrong or prev[2]):
+                run.count("awaiting-decision:nt-not-monotone")
+            else:
+                run.oracle_failure(_case(kind="nt-pair", ms=[prev[0], m], tag=tag),
+                                   f"os.name='nt': monotone ms->dt: {prev[0]} < {m} but {prev[1]} us >= {u} us")
+        prev = (m, u, waits_wrong)
+    run.count(f"nt:{tag}:{via}", len(ms_list))
+    for part_ms, part in zip(_chunks(ms_list), _chunks(exp)):
+        # the faithful model of the branch, or (entry by entry) the exact instant as an aware datetime, which is what the
+        # property demands and what the proposed repair returns: a repaired library stays green
+        ctx.ask_either("c15_ms2dt_nt " + ",".join(map(str, part_ms)), "c15_ms2dt_ntp " + ",".join(map(str, part_ms)),
+                       part, _case(kind="nt", op="c15_ms2dt_nt", tag=tag, key="ms", inputs=part_ms))
+
+
+def check_far_range(ctx, ms_list, tag, sorted_window=False):
+    """milliseconds of datetime's full range OUTSIDE the property's 1900..2200: bit-exact correspondence with the model;
+    oracle = what is proved of the model there (Time.ms_to_dt_close_full: within 15 us; strictly monotone; the round trip
+    gives ms or ms - 1). A lost millisecond is counted as an observation (outside the quantifier)."""
+    from csep.utils import time_utils as tu
+    run = ctx.run
+    uss, prev = [], None
+    for m in ms_list:
+        case = _case(kind="far", ms=m, tag=tag)
+        run.case(case, ("far", m))
+        try:
+            dt = tu.epoch_time_to_utc_datetime(m)
+            back = tu.datetime_to_utc_epoch(dt)
+        except Exception as e:
+            run.oracle_failure(case, f"far range: conversion raised {type(e).__name__}: {e}")
+            uss.append("err")
+            continue
+        u = us_of(dt)
+        uss.append(str(u))
+        if dt.tzinfo is None or abs(u - 1000 * m) >= 1000:
+            run.oracle_failure(case, f"far range: {m} ms -> {dt!r}: not UTC-aware within one millisecond")
+        if back != m:
+            if back == m - 1 or back == m + 1:
+                run.count("outside-quantifier:far-range-roundtrip-off-by-one-ms")
+            else:
+                run.oracle_failure(case, f"far range: round trip {m} -> {dt.isoformat()} -> {back}")
+        if sorted_window and prev is not None and not (prev[1] < u):
+            run.oracle_failure(_case(kind="far-pair", ms=[prev[0], m], tag=tag),
+                               f"far range: monotone ms->dt: {prev[0]} < {m} but {prev[1]} us >= {u} us")
+        prev = (m, u)
+    run.count(f"far:{tag}", len(ms_list))
+    for part_ms, part_us in zip(_chunks(ms_list), _chunks(uss)):
+        ctx.ask("c15_ms2dt " + ",".join(map(str, part_ms)), part_us, _case(kind="far", op="c15_ms2dt", tag=tag, key="ms",
+                                                                            inputs=part_ms))
+
+
+def check_far_dt(ctx, us_list, tag):
+    """datetime -> ms on datetime's full range (integer arithmetic: exact floor everywhere) + the civil fields"""
+    from csep.utils import time_utils as tu
+    run = ctx.run
+    exp = []
+    for i, u in enumerate(us_list):
+        case = _case(kind="fardt", us=u, tag=tag)
+        run.case(case, ("fardt", u))
+        dt = dt_of(u, aware=bool(i % 2))
+        try:
+            ms = tu.datetime_to_utc_epoch(dt)
+        except Exception as e:
+            run.oracle_failure(case, f"far range: dt->ms raised {type(e).__name__}: {e}")
+            exp.append("err")
+            continue
+        exp.append(str(ms))
+        if ms != u // 1000:
+            run.oracle_failure(case, f"far range: dt->ms {dt.isoformat()} -> {ms}, exact floor millisecond {u // 1000}")
+        if i % 50 == 0:
+            ctx.ask(f"c15_fields {u}", ",".join(map(str, [dt.year, dt.month, dt.day, dt.hour, dt.minute, dt.second,
+                                                           dt.microsecond])), dict(case, op="c15_fields"))
+    run.count(f"fardt:{tag}", len(us_list))
+    for part_us, part_ms in zip(_chunks(us_list), _chunks(exp)):
+        ctx.ask("c15_dt2ms utc " + ",".join(map(str, part_us)), part_ms,
+                _case(kind="fardt", op="c15_dt2ms", tag=tag, inputs=part_us))
+
+
+def _exc_name(f, *a, **k):
+    try:
+        return None, f(*a, **k)
+    except Exception as e:          # mapped to a small enum by the callers
+        return type(e).__name__, None
+
+
+def check_small(ctx, sub, vals, tag):
+    """the small conversions of time_utils: sub = m2d | d2m | d2mi | tdy | none | createutc | now"""
+    from csep.utils import time_utils as tu
+    import numpy
+    run = ctx.run
+    case = _case(kind="small", sub=sub, vals=vals, tag=tag)
+    run.case(case, ("small", sub, json.dumps(vals)))
+    run.count(f"small:{sub}")
+    if sub == "m2d":            # millis_to_days on sorted integer milliseconds (python int and numpy.int64)
+        out = []
+        for i, m in enumerate(vals):
+            y = tu.millis_to_days(numpy.int64(m) if i % 2 else m)
+            out.append(float(y))
+            if m % 86400000 == 0 and Fraction(float(y)) != m // 86400000:
+                run.oracle_failure(case, f"millis_to_days({m}) = {y!r}: a whole number of days is not recovered exactly")
+            if abs(Fraction(float(y)) * 86400000 - m) > Fraction(abs(m), 2 ** 51) + Fraction(1, 10 ** 6):
+                run.oracle_failure(case, f"millis_to_days({m}) = {y!r} is not {m}/86400000 to double precision")
+        for a, b in zip(out, out[1:]):
+            if a > b:
+                run.oracle_failure(case, f"millis_to_days is not monotone on {vals}")
+        ctx.ask("c15_m2d " + ",".join(map(str, vals)), [frac(y) for y in out], dict(case, op="c15_m2d", tol=(Fraction(1, 2 ** 50), 0)))
+    elif sub == "d2m":          # days_to_millis on sorted float days
+        ds = [float.fromhex(v) for v in vals]
+        out = [float(tu.days_to_millis(d)) for d in ds]
+        for d, y in zip(ds, out):
+            if abs(Fraction(y) - Fraction(d) * 86400000) > abs(Fraction(d)) * 86400000 / 2 ** 51:
+                run.oracle_failure(case, f"days_to_millis({d!r}) = {y!r} is not 86400000*days to double precision")
+            back = tu.millis_to_days(y)
+            if abs(Fraction(float(back)) - Fraction(d)) > abs(Fraction(d)) / 2 ** 50:
+                run.oracle_failure(case, f"millis_to_days(days_to_millis({d!r})) = {back!r}")
+        for a, b in zip(out, out[1:]):
+            if a > b:
+                run.oracle_failure(case, f"days_to_millis is not monotone on {ds}")
+        ctx.ask("c15_d2m " + ",".join(frac(d) for d in ds), [frac(y) for y in out], dict(case, op="c15_d2m", tol=(Fraction(1, 2 ** 50), 0)))
+    elif sub == "d2mi":         # days_to_millis on whole days (int): exact, and millis_to_days recovers the day
+        out = [tu.days_to_millis(int(d)) for d in vals]
+        for d, y in zip(vals, out):
+            if y != 86400000 * d or tu.millis_to_days(y) != d:
+                run.oracle_failure(case, f"days_to_millis({d}) = {y!r}; millis_to_days of it = {tu.millis_to_days(y)!r}")
+        ctx.ask("c15_d2mi " + ",".join(map(str, vals)), [str(int(y)) for y in out], dict(case, op="c15_d2mi"))
+    elif sub == "tdy":          # timedelta_from_years on floats (negative: ValueError)
+        ys = [float.fromhex(v) for v in vals]
+        exp = []
+        for y in ys:
+            err, td = _exc_name(tu.timedelta_from_years, y)
+            if y < 0:
+                if not err:
+                    run.oracle_failure(case, f"timedelta_from_years({y!r}) returned {td!r} for a negative argument")
+                exp.append("none" if err else "returned")        # which exception is not part of the statement
+                continue
+            if err:
+                run.oracle_failure(case, f"timedelta_from_years({y!r}) raised {err}")
+                exp.append(err)
+                continue
+            us = (td.days * 86400 + td.seconds) * 10 ** 6 + td.microseconds
+            exp.append(str(us))
+            if abs(us - Fraction(y) * 31557600 * 10 ** 6) > 1 + Fraction(y) * 31557600 * 10 ** 6 / 2 ** 51:
+                run.oracle_failure(case, f"timedelta_from_years({y!r}) = {td!r} is not y astronomical years to a microsecond")
+        ctx.ask("c15_tdy " + ",".join(frac(y) for y in ys), exp, dict(case, op="c15_tdy", tol=(Fraction(1, 2 ** 50), 1)))
+    elif sub == "none":         # None passes through the three converters
+        got = [tu.epoch_time_to_utc_datetime(None), tu.datetime_to_utc_epoch(None), tu.decimal_year(None)]
+        if got != [None, None, None]:
+            run.oracle_failure(case, f"None does not pass through: {got!r}")
+    elif sub == "createutc":    # create_utc_datetime: naive -> the same wall clock labelled UTC; aware -> AssertionError
+        for u in vals:
+            err, d = _exc_name(tu.create_utc_datetime, dt_of(u, False))
+            good = not err and d.tzinfo is not None and d.utcoffset() == _dt.timedelta(0) and us_of(d) == u
+            if not good:
+                if err == "AttributeError" and A_CREATE_UTC in AWAITING_DECISION:
+                    run.count("awaiting-decision:create_utc_datetime-AttributeError")
+                else:
+                    run.oracle_failure(case, f"create_utc_datetime(naive {dt_of(u, False).isoformat()}) -> {err or d!r}")
+            # the model of the function as it is, or of the function the docstring describes (a repaired library stays green)
+            ctx.ask_either(f"c15_createutc asis naive {u}", f"c15_createutc fixed naive {u}",
+                           [str(us_of(d)) if not err else err], dict(case, op="c15_createutc"))
+            err, d = _exc_name(tu.create_utc_datetime, dt_of(u, True))
+            if err == "AssertionError":         # the documented precondition; anything else is only counted
+                ctx.ask(f"c15_createutc asis utc {u}", str(err), dict(case, op="c15_createutc"))
+            else:
+                run.count(f"create_utc_datetime(aware):{err or 'returned'}")
+    elif sub == "now":          # utc_now_datetime / utc_now_epoch: the current instant, UTC-aware, zone independent
+        import time
+        import warnings
+        with warnings.catch_warnings():
+            warnings.simplefilter("ignore")
+            t0 = time.time()
+            d, e = tu.utc_now_datetime(), tu.utc_now_epoch()
+            t1 = time.time()
+        if d.tzinfo is None or d.utcoffset() != _dt.timedelta(0) or not (t0 - 1 <= us_of(d) / 1e6 <= t1 + 1):
+            run.oracle_failure(case, f"utc_now_datetime() = {d!r} is not the current UTC instant ({t0})")
+        if not isinstance(e, int) or not (1000 * (t0 - 1) <= e <= 1000 * (t1 + 1)):
+            run.oracle_failure(case, f"utc_now_epoch() = {e!r} is not the current epoch millisecond ({t0})")
+    else:
+        raise ValueError(sub)
+
+
+def check_explicit_format(ctx, us, sep, shape, tag):
+    """strptime_to_utc_epoch / strptime_to_utc_datetime with an EXPLICIT format argument: sep in 'T', ' ', '/';
+    shape = (string has fraction, string has +00:00, format has .%f, format has %z): matching formats must return the
+    datetime and its floor millisecond, every mismatch is a ValueError"""
+    from csep.utils import time_utils as tu
+    run = ctx.run
+    sfrac, szone, ffrac, fzone = shape
+    if not sfrac:
+        us -= us % 1000000
+    elif us % 1000000 == 0:
+        us += 1
+    naive, aware = dt_of(us, False), dt_of(us, True)
+    s = naive.isoformat(sep) + ("+00:00" if szone else "")
+    fmt = f"%Y-%m-%d{sep}%H:%M:%S" + (".%f" if ffrac else "") + ("%z" if fzone else "")
+    if fmt == "%Y-%m-%d %H:%M:%S.%f":
+        return                      # that IS the default format string: sniffing, covered by check_strings
+    case = _case(kind="xfmt", us=us, sep=sep, shape=list(shape), string=s, format=fmt, tag=tag)
+    run.case(case, ("xfmt", us, sep, tuple(shape)))
+    run.count(f"xfmt:{'match' if (sfrac, szone) == (ffrac, fzone) else 'mismatch'}")
+    e1, ep = _exc_name(tu.strptime_to_utc_epoch, s, format=fmt)
+    e2, d = _exc_name(tu.strptime_to_utc_datetime, s, format=fmt)
+    if (sfrac, szone) == (ffrac, fzone):
+        if e1 or e2 or ep != us // 1000 or d != aware or d.tzinfo is None:
+            run.oracle_failure(case, f"explicit format {fmt!r} on {s!r}: epoch {e1 or ep!r}, datetime {e2 or d!r}; "
+                                     f"expected {us // 1000} and {aware.isoformat()}")
+    elif not e1 or not e2:
+        run.oracle_failure(case, f"explicit format {fmt!r} does not match {s!r} but gave {e1 or ep!r} / {e2 or d!r} "
+                                 f"instead of an error")
+    sp = "S" if sep == " " else sep
+    ctx.ask(f"c15_parsex epoch {sp} {int(ffrac)} {int(fzone)} {esc(s)}", "none" if e1 else str(ep),
+            dict(case, op="c15_parsex epoch"))
+    ctx.ask(f"c15_parsex dt {sp} {int(ffrac)} {int(fzone)} {esc(s)}",
+            "none" if e2 else str(us_of(d)), dict(case, op="c15_parsex dt"))
+
+
+def check_durations(ctx, pairs, tag):
+    """derived durations, bit exact: CatalogForecast.time_horizon_years of a FRESH forecast (two true divisions of the
+    epoch difference) and CSEPCatalog.length_in_seconds (total_seconds of the difference of the first and last datetime)"""
+    from csep.core.forecasts import CatalogForecast
+    from csep.core.catalogs import CSEPCatalog
+    run = ctx.run
+    for ua, ub in pairs:
+        case = _case(kind="duration", us=[ua, ub], tag=tag)
+        run.case(case, ("duration", ua, ub))
+        run.count("duration")
+        try:
+            cats = [CSEPCatalog(data=[("a", 0, 0.0, 0.0, 0.0, 1.0)], catalog_id=0)]
+            fc = CatalogForecast(catalogs=cats, start_time=dt_of(ua, False), end_time=dt_of(ub, True), name="f")
+            thy = float(fc.time_horizon_years)
+            ma, mb = ua // 1000, ub // 1000
+            cat = CSEPCatalog(data=[("a", ma, 0.0, 0.0, 0.0, 1.0), ("m", (ma + mb) // 2, 0.0, 0.0, 0.0, 1.0),
+                                    ("b", mb, 0.0, 0.0, 0.0, 1.0)])
+            ln = float(cat.length_in_seconds())
+        except Exception as e:
+            run.oracle_failure(case, f"durations raised {type(e).__name__}: {e}")
+            continue
+        want = Fraction(mb - ma, 31557600 * 1000)
+        if abs(Fraction(thy) - want) > abs(want) / 2 ** 50:
+            run.oracle_failure(case, f"time_horizon_years = {thy!r}; the window is {float(want)!r} astronomical years")
+        if ln != (mb - ma) / 1000:
+            run.oracle_failure(case, f"length_in_seconds = {ln!r}; first and last event are {(mb - ma) / 1000!r} s apart")
+        ctx.ask(f"c15_thy {ua},{ub}", [frac(thy)], dict(case, op="c15_thy", tol=(Fraction(1, 2 ** 50), 0)))
+        ctx.ask(f"c15_len {ma},{mb}", [frac(ln)], dict(case, op="c15_len"))
+
+
+def _wave4(ctx, rng, quick, centres, k=1.0):
+    """the input classes added in wave 4 (k scales the sample; < 1 inside the local-zone sample)"""
+    n = lambda q, t: max(1, int((q if quick else t) * k))
+    # -- Windows branch: uniform (mostly negative) epochs through the function and through a catalog, complete windows
+    uni = [rng.randrange(MS_LO, 1) if rng.random() < 0.85 else rng.randrange(0, MS_HI + 1) for _ in range(n(12000, 150000))]
+    check_ms_values_nt(ctx, uni[: len(uni) // 5], "uniform", via="catalog")
+    check_ms_values_nt(ctx, uni[len(uni) // 5:], "uniform")
+    check_ms_values_nt(ctx, [-1500, -1230, -1200, -1234, -1001, -1000, -999, -100, -10, -1, 0, 1, 10, 1500, MS_LO, MS_LO + 10,
+                             -1097606850620, -1097606850600], "edges")
+    nt_centres = [0, -1000, -86400000, year_start_ms(1969), year_start_ms(1900) + 2000] + \
+                 [rng.randrange(MS_LO // 1000, 0) * 1000 for _ in range(n(3, 20))]
+    for c in nt_centres:
+        w = 1200 if quick else 2000
+        check_ms_values_nt(ctx, list(range(c - w, c + w + 1)), "window", sorted_window=True)
+    # -- full range of datetime outside 1900..2200
+    far = [rng.randrange(MS_MIN, MS_LO) if rng.random() < 0.5 else rng.randrange(MS_HI + 1, MS_MAX + 1)
+           for _ in range(n(8000, 100000))]
+    check_far_range(ctx, far, "uniform")
+    check_far_range(ctx, [MS_MIN, MS_MIN + 1, MS_MAX - 1, MS_MAX, -8589934592002, -8589934592001, -8589934592000,
+                          8589934592000, 8589934592001, 8589934592002], "edges")
+    for c in [8589934592000, -8589934592000, MS_MIN + 700, MS_MAX - 700, year_start_ms(1000), year_start_ms(9999),
+              year_start_ms(rng.randrange(2, 1900)), year_start_ms(rng.randrange(2201, 9999))]:
+        check_far_range(ctx, list(range(max(c - 600, MS_MIN), min(c + 601, MS_MAX + 1))), "window", sorted_window=True)
+    check_far_dt(ctx, sorted(rng.randrange(MS_MIN * 1000, MS_MAX * 1000 + 1000) for _ in range(n(4000, 50000))), "uniform")
+    for _ in range(n(150, 3000)):
+        y = rng.choice([1, 2, 99, 100, 999, 1000, 1582, 1899, 2201, 2400, 9998, 9999, rng.randrange(1, 1900),
+                        rng.randrange(2201, 10000)])
+        lo = year_start_ms(y) * 1000
+        hi = (year_start_ms(y + 1) if y < 9999 else MS_MAX + 1) * 1000
+        u = rng.choice([lo, hi - 1, hi - 1000000, rng.randrange(lo, hi), rng.randrange(lo, hi) // 1000000 * 1000000])
+        check_strings(ctx, u, "far-strings")
+    # -- small conversions
+    for _ in range(n(60, 1500)):
+        ms = sorted(rng.choice([rng.randrange(0, 10 ** 13), rng.randrange(-10 ** 12, 10 ** 12), rng.randrange(0, 10 ** 6),
+                                86400000 * rng.randrange(-10 ** 5, 10 ** 5)]) for _ in range(rng.randint(1, 12)))
+        check_small(ctx, "m2d", ms, "small")
+        ds = sorted(rng.choice([10 ** rng.uniform(-6, 5), rng.uniform(-1000, 1000), float(rng.randrange(-10 ** 5, 10 ** 5)),
+                                0.1 * rng.randrange(1, 10 ** 4)]) for _ in range(rng.randint(1, 12)))
+        check_small(ctx, "d2m", [d.hex() for d in ds], "small")
+        check_small(ctx, "d2mi", [rng.randrange(-10 ** 7, 10 ** 7) for _ in range(rng.randint(1, 8))], "small")
+        check_small(ctx, "tdy", [rng.choice([rng.uniform(0, 300), 10 ** rng.uniform(-9, 2), float(rng.randrange(0, 300)),
+                                             0.0, -rng.uniform(1e-9, 5), 0.25 * rng.randrange(0, 1000)]).hex()
+                                 for _ in range(rng.randint(1, 8))], "small")
+        check_small(ctx, "createutc", [rng.randrange(MS_LO * 1000, MS_HI * 1000) for _ in range(3)], "small")
+    check_small(ctx, "none", [], "small")
+    check_small(ctx, "now", [], "small")
+    # -- explicit format argument
+    shapes = [(a, b, c, d) for a in (0, 1) for b in (0, 1) for c in (0, 1) for d in (0, 1)]
+    for i in range(n(400, 8000)):
+        u = rng.choice([rng.randrange(MS_LO * 1000, MS_HI * 1000), rng.randrange(MS_MIN * 1000, MS_MAX * 1000),
+                        rng.choice(centres)[1] * 1000 + rng.choice([-1, 0, 1, 1000])])
+        shp = shapes[i % 16] if rng.random() < 0.5 else rng.choice([(0, 0, 0, 0), (1, 0, 1, 0), (0, 1, 0, 1), (1, 1, 1, 1)])
+        check_explicit_format(ctx, u, rng.choice(["T", " ", "/"]), shp, "explicit")
+    # -- derived durations, bit exact
+    prs = []
+    for _ in range(n(60, 1500)):
+        a = rng.choice([rng.randrange(MS_LO * 1000, MS_HI * 1000), rng.randrange(MS_LO, MS_HI) * 1000])
+        b = min(a + rng.choice([0, 1, 999, 1000, 86400 * 10 ** 6, 31557600 * 10 ** 6, rng.randrange(1, 10 ** 13),
+                                rng.randrange(1, 10 ** 16)]), MS_HI * 1000)
+        prs.append((a, b))
+    check_durations(ctx, prs, "durations")
+
 # ------------------------------------------------------------------------------------------------ driver
 def _corpus(ctx):
     d = os.path.join(VERIF, "corpus", "C15")
@@ -768,6 +1211,10 @@ def run(run, rng, tier):
     ctx.flush()
     run.extra["decimal_year_lattice_years"] = dyears
 
+    # -- wave 4: Windows branch, full range of datetime, small conversions, explicit formats, durations
+    _wave4(ctx, rng, quick, centres)
+    ctx.flush()
+
     # -- a sample of ALL of the above under non-UTC LOCAL time zones: nothing may depend on the zone of the machine
     zones = LOCAL_ZONES + ([] if quick else LOCAL_ZONES_THOROUGH)
     for zone in zones:
@@ -776,7 +1223,10 @@ def run(run, rng, tier):
             ctx.flush()
     run.extra["local_time_zones"] = zones
     run.extra["awaiting_decision"] = list(AWAITING_DECISION)
-    run.assumptions.append("os.name != 'nt' (the Windows branch of epoch_time_to_utc_datetime is not exercised)")
+    run.extra["outside_quantifier"] = list(OUTSIDE_QUANTIFIER)
+    run.assumptions.append("the Windows branch of epoch_time_to_utc_datetime is exercised with time_utils' global `os` "
+                           "replaced by a stand-in whose name is 'nt' (str(float), int(), timedelta are platform "
+                           "independent; the C library's fromtimestamp of a real Windows build is not reproduced)")
 
 
 def _sample_all(ctx, rng, quick, centres):
@@ -825,6 +1275,7 @@ def _sample_all(ctx, rng, quick, centres):
         check_decimal_years(ctx, [1000 * x for x in range(m - 100, m + 101)], "tz-lattice-dst", lattice=True)
     check_decimal_years(ctx, sorted(set(rng.randrange(MS_LO, MS_HI) * 1000 + rng.choice([0, rng.randrange(1000)])
                                         for _ in range(1200 * k))), "tz-uniform")
+    _wave4(ctx, rng, quick, centres, k=0.04)
     ctx.run.count(f"local-tz:{zone}:utcoffset-now={-time.timezone}")
 
 
@@ -857,6 +1308,23 @@ def _replay(run, case):
         check_decimal_years(ctx, [int(x) for x in case["us"]], "replay", lattice=True)
     elif kind == "forecast":
         check_forecast_epoch(ctx, int(case["us"][0]), int(case["us"][1]))
+    elif kind == "nt":
+        check_ms_values_nt(ctx, [int(x) for x in case.get("all", [case["ms"]])] if case.get("via") == "catalog"
+                           else [int(case["ms"])], "replay", via=case.get("via", "func"))
+    elif kind == "nt-pair":
+        check_ms_values_nt(ctx, [int(x) for x in case["ms"]], "replay", sorted_window=True)
+    elif kind == "far":
+        check_far_range(ctx, [int(case["ms"])], "replay")
+    elif kind == "far-pair":
+        check_far_range(ctx, [int(x) for x in case["ms"]], "replay", sorted_window=True)
+    elif kind == "fardt":
+        check_far_dt(ctx, [int(case["us"])], "replay")
+    elif kind == "small":
+        check_small(ctx, case["sub"], case["vals"], "replay")
+    elif kind == "xfmt":
+        check_explicit_format(ctx, int(case["us"]), case["sep"], tuple(case["shape"]), "replay")
+    elif kind == "duration":
+        check_durations(ctx, [tuple(int(x) for x in case["us"])], "replay")
     else:
         _corpus(ctx)
     ctx.flush()
